@@ -8,6 +8,7 @@ int main(int argc, char **argv) {
     RUN("queue_void_history", 1, true, scn::queue_void_history(o, R, o.cases / 4 + 1));
     RUN("queue_string_values", 1, true, scn::queue_string_values<false>(o, R, o.cases));
     RUN("queue_callback_consumer", 1, true, scn::queue_callback_consumer<false>(o, R, o.cases));
+    RUN("queue_single_consumer", 1, true, scn::queue_single_consumer(o, R, o.cases));
     RUN("queue_mt", o.threads, true, scn::queue_mt<false>(o, R, T, o.cases));
     RUN("queue_unblock_contended", std::min(o.threads, 4), true, scn::queue_unblock_contended(o, R, T, o.cases / 4 + 1));
     return 0;
